@@ -30,9 +30,12 @@ func (x *Exec) loopInvariants(st *State, fr *Frame, l *Loop, phase string, assum
 		env.old = snap // inlined callee: old() refers to loop entry (no own pre-state)
 	}
 	// parameters of the executing function
-	for _, p := range fr.fn.Params {
+	for i, p := range fr.fn.Params {
 		if v, ok := fr.vals[p]; ok {
 			env.vars[p.Name()] = v
+			if a := x.P.paramAlias(fr.fn, i); a != "" {
+				env.vars[a] = v
+			}
 		}
 	}
 	pos := token.NoPos
